@@ -108,15 +108,15 @@ def r07b(ctx, tom):
             ctx.instance("R07b", where, "no live row left wider than the declared columns", ok=where.split(":")[1] not in bad, nontrivial=True, line=line)
     # _update_width is the sync event the interpreter recognises structurally: check its shape is intact
     f = ctx.repo.func("Table._update_width")
-    src = ast.unparse(f.node)
-    ok = "row.width - self.width" in src and "append_column" in src and "diff > 0" in src
+    from ..shape import has
+    ok = has(f.node, "D_ = ROW_.width - self.width") and has(f.node, "if D_ > 0:\n    self.append_column(C_)")
     ctx.instance("R07b", f"{f.file}:{f.ident}", "diff = row.width - self.width; if diff > 0: append_column(Column(repeated=diff))", ok=ok, nontrivial=True)
     if not ok:
         ctx.report("R07b", f, f.node, "_update_width shape", "_update_width no longer appends the missing columns when the row is wider than the table")
     for n in walk_no_nested(f.node):
         if isinstance(n, ast.Call) and call_name(n) == "Column":
             r = get_arg(n, None, "repeated")
-            ok2 = r is not None and ast.unparse(r) == "diff"
+            ok2 = r is not None and has(f.node, "D_ = ROW_.width - self.width") and has(f.node, "if D_ > 0:\n    self.append_column(Column(repeated=D_))")
             ctx.instance("R07b", f"{f.file}:{f.ident}", "the appended column run has length diff", ok=ok2)
             if not ok2:
                 ctx.report("R07b", f, n, n, "the column appended by _update_width does not cover the width difference")
@@ -255,8 +255,9 @@ def r07e(ctx):
                    f"the table-name regex forbids {sorted(anywhere)} anywhere, {sorted(first)} first, {sorted(last)} last; office applications forbid "
                    f"{sorted(FORBIDDEN_ANYWHERE)} anywhere and an apostrophe first or last (missing {sorted(missing)}, extra {sorted(extra)})")
     f = repo.func("table:_table_name_check")
-    src = ast.unparse(f.node)
-    ok = "_RE_TABLE_NAME.search(name)" in src and ".strip()" in src and "isinstance(name, str)" in src and "if not name" in src
+    from ..shape import has
+    ok = has(f.node, "_RE_TABLE_NAME.search(N_)") and has(f.node, "N_ = N_.strip()") and has(f.node, "if not isinstance(N_, str):\n    raise TypeError(M_)") \
+        and has(f.node, "if not N_:\n    raise ValueError(M_)")
     searches = [n for n in walk_no_nested(f.node) if isinstance(n, ast.Call) and call_name(n) in ("search", "match", "fullmatch")]
     ok = ok and all(call_name(s) == "search" for s in searches)
     ctx.instance("R07e", f"{f.file}:{f.ident}", "type check, strip, empty check, regex search over the whole name", ok=ok, nontrivial=True)
@@ -278,8 +279,8 @@ def r07e(ctx):
     if not ok:
         ctx.report("R07e", g, g.node, "forbidden_in_named_range", "the forbidden character set of named-range names is no longer printable minus letters, digits and underscore")
     h = repo.func("NamedRange.name", "setter")
-    src = ast.unparse(h.node)
-    ok = "forbidden_in_named_range()" in src and "step == 'A1'" in src and "string.ascii_letters" in src and "string.digits" in src and "name.strip()" in src
+    ok = has(h.node, "X_ in forbidden_in_named_range()") and has(h.node, "if S_ == 'A1':\n    raise ValueError(M_)") and has(h.node, "X_ in string.ascii_letters") \
+        and has(h.node, "X_ in string.digits") and has(h.node, "N_ = N_.strip()") and has(h.node, "if not N_:\n    raise ValueError(M_)")
     ctx.instance("R07e", f"{h.file}:{h.ident}", "strip, forbidden characters, A1-shape automaton", ok=ok, nontrivial=True)
     if not ok:
         ctx.report("R07e", h, h.node, "NamedRange.name checks", "the named-range name setter no longer rejects forbidden characters and cell-address-shaped names")
@@ -330,6 +331,9 @@ SEEDS = [
     Seed("regex anchored: only the first character is checked", "fault", _T, "    if match := _RE_TABLE_NAME.search(name):", "    if match := _RE_TABLE_NAME.match(name):", "R07e"),
     Seed("named range names accept the dot", "fault", _T, "        and char != \"_\"\n", "        and char != \"_\"\n        and char != \".\"\n", "R07e"),
     unparse_seed(_T), unparse_seed(_R), unparse_seed(_C),
+    Seed("_update_width with renamed locals", "neutral", _T,
+         "        diff = row.width - self.width\n        if diff > 0:\n            self.append_column(Column(repeated=diff))\n\n    def _get_formatted_text_normal(",
+         "        missing = row.width - self.width\n        if missing > 0:\n            self.append_column(Column(repeated=missing))\n\n    def _get_formatted_text_normal("),
     Seed("guard written as >= 2 positive form", "neutral", _R,
          "        if repeated is None or repeated < 2:\n            with contextlib.suppress(KeyError):\n                self.del_attribute(\"table:number-rows-repeated\")\n            return\n        self.set_attribute(\"table:number-rows-repeated\", str(repeated))",
          "        if repeated is not None and repeated >= 2:\n            self.set_attribute(\"table:number-rows-repeated\", str(repeated))\n        else:\n            with contextlib.suppress(KeyError):\n                self.del_attribute(\"table:number-rows-repeated\")"),
